@@ -21,8 +21,18 @@ import (
 // C14 over histories of the catalog: the commands follow what is registered, also when a registration changes
 // without any health check changing (the blocking health query then ends by its wait time, with the index it had).
 func TestVerifC14RegWatch(t *testing.T) {
-	L := ev.Begin("C14", "c14-watch", "model_checking",
-		"every history of length <=3 over catalog states of one service {port 8080, port 9090, prefix /web2 on port 8080} through the real ServiceMonitor.Watch against an in-process fake Consul whose health index does NOT move when only the catalog changes (the blocking health query then returns by its wait time with the old index); after every step the published configuration must name the registration as it is now; the same histories in poll mode (registry.consul.pollinterval=1ms, no blocking query): the third publication after a change at the latest, and the one after it, must name the registration as it is now. non-trivial = histories with a change")
+	c14RegWatch("C14", "c14-watch", false, "")
+}
+
+// C01 reads the same histories from the other side: the table (here: the published configuration) holds the healthy,
+// tagged instance - also after a round in which the catalog lookup failed, once the registry is quiet again.
+func TestVerifC01Watch(t *testing.T) {
+	c14RegWatch("C01", "c01-watch", true, "; with a fourth event: the catalog lookup of one round fails with a 500 (whatever is published for that round is accepted), the registry then stays quiet and the next round that ends by its wait time must publish the instance again")
+}
+
+func c14RegWatch(prop, layer string, withFault bool, extra string) {
+	L := ev.Begin(prop, layer, "model_checking",
+		"every history of length <=3 over catalog states of one service {port 8080, port 9090, prefix /web2 on port 8080} through the real ServiceMonitor.Watch against an in-process fake Consul whose health index does NOT move when only the catalog changes (the blocking health query then returns by its wait time with the old index); after every step the published configuration must name the registration as it is now; the same histories in poll mode (registry.consul.pollinterval=1ms, no blocking query): the third publication after a change at the latest, and the one after it, must name the registration as it is now"+extra+". non-trivial = histories with a change")
 	type st struct {
 		port   int
 		prefix string
@@ -31,6 +41,8 @@ func TestVerifC14RegWatch(t *testing.T) {
 	var mu sync.Mutex
 	cur := states[0]
 	var wake chan struct{}
+	catalogFails := false
+	nBad := 0
 	newServer := func() *httptest.Server {
 		wake = make(chan struct{}, 8)
 		myWake := wake // a watcher left over from an earlier history must not take this history's signals
@@ -58,6 +70,13 @@ func TestVerifC14RegWatch(t *testing.T) {
 				}
 				json.NewEncoder(w).Encode([]map[string]interface{}{{"Node": "n1", "CheckID": "service:web-1", "Status": "passing", "ServiceID": "web-1", "ServiceName": "web", "ServiceTags": tags}})
 			case strings.HasPrefix(r.URL.Path, "/v1/catalog/service/web"):
+				mu.Lock()
+				f := catalogFails
+				mu.Unlock()
+				if f {
+					http.Error(w, "rpc error: No cluster leader", 500)
+					return
+				}
 				json.NewEncoder(w).Encode([]map[string]interface{}{{"Node": "n1", "Address": "10.0.0.1", "ServiceID": "web-1", "ServiceName": "web", "ServiceAddress": "", "ServicePort": c.port, "ServiceTags": tags}})
 			default:
 				http.Error(w, "unexpected "+r.URL.Path, 404)
@@ -75,6 +94,9 @@ func TestVerifC14RegWatch(t *testing.T) {
 		}
 		for i := range states {
 			rec(append(h, i))
+		}
+		if withFault {
+			rec(append(h, len(states))) // the catalog lookup of this round fails
 		}
 	}
 	rec(nil)
@@ -117,6 +139,27 @@ func TestVerifC14RegWatch(t *testing.T) {
 				if bad {
 					break
 				}
+				if i == len(states) {
+					if poll {
+						continue
+					}
+					// one round with a failing catalog lookup (what it publishes is not judged), then a quiet registry
+					mu.Lock()
+					catalogFails = true
+					mu.Unlock()
+					wake <- struct{}{}
+					next()
+					mu.Lock()
+					catalogFails = false
+					mu.Unlock()
+					changes = true
+					wake <- struct{}{}
+					if got = next(); got != want(states[prev]) {
+						bad = true
+						d["registered_now"], d["published"], d["after"] = want(states[prev]), got, "a round whose catalog lookup failed and one more round that ended by its wait time"
+					}
+					continue
+				}
 				mu.Lock()
 				cur = states[i]
 				mu.Unlock()
@@ -148,6 +191,12 @@ func TestVerifC14RegWatch(t *testing.T) {
 			L.Outcome(fmt.Sprint(bad))
 			if bad {
 				L.Violation("commands-do-not-follow-a-changed-registration", d)
+				if nBad++; nBad >= 3 {
+					// a watcher that publishes nothing costs the full waiting time per history: three witnesses are enough
+					L.Cap("stopped after three violating histories")
+					L.End(false)
+					return
+				}
 			}
 			srv.CloseClientConnections()
 			srv.Close() // the watcher of this history goes on asking a server that is gone (it cannot be stopped): harmless
